@@ -68,6 +68,7 @@ ARG_CHECKED = {
 }
 
 MUTANTS = [
+    {"name": "keyless-blpop-accepted", "file": "src/proxy/executor.rs", "old": "            (DataCmdType::Blpop, Some(len)) if len > 2 => Ok(len),", "new": "            (DataCmdType::Blpop, Some(len)) if len >= 2 => Ok(len),", "expect": "C16.D5:arity:Blpop:len=2"},
     {"name": "slowlog-truncate-mid-char", "file": "src/proxy/slowlog.rs", "old": "                s.truncate(end);", "new": "                let _ = end;\n                s.truncate(MAX_ELEMENT_LENGTH);", "expect": "C16.D4"},
     {"name": "missing-key-expect", "file": "src/proxy/executor.rs", "after": "async fn handle_multi_int_cmd(", "old": "            let key = match cmd_ctx.get_cmd().get_command_element(i) {\n                Some(key) => key,\n                None => break,\n            };", "new": "            if i >= arg_len {\n                break;\n            }\n            let key = cmd_ctx.get_cmd().get_command_element(i + 1).expect(\"key\");", "expect": "C16.D4"},
     {"name": "event-array-too-short", "file": "src/proxy/slowlog.rs", "old": "const EVENT_NUMBER: usize = 8;", "new": "const EVENT_NUMBER: usize = 7;", "expect": "C16.D4:event-array"},
@@ -91,6 +92,8 @@ def run(ctx):
     _taint(ctx)
     _division(ctx)
     _panic_sites(ctx)
+    ctx.rule("C16.D5", "arity guard of the blocking family equals the Redis command table on lengths 0..7 (a key-less BLPOP would find no sub-command to run and poll for ever)", exhaustive=True)
+    _blocking_arity(ctx)
 
 
 def _recursion(ctx):
@@ -439,3 +442,43 @@ def _const_item_int(F, path):
         if st["place"]["l"] == 0 and not st["place"]["p"] and st["rv"]["k"] == "use" and "c" in st["rv"]["a"]:
             return const_int(st["rv"]["a"]["c"])
     return None
+
+
+def _blocking_arity(ctx):
+    """handle_blocking_commands turns the keys of a blocking command into non-blocking sub-commands and polls them in a
+    retry loop whose exits (data found / timeout) sit inside the per-key loop: with zero keys the loop has no exit.  The
+    only thing that prevents this is the arity guard; it is evaluated on concrete lengths against the Redis arity table."""
+    from ..sccp import Interp, Oracle, Int, Some, Agg
+    from ..tables.redis_commands import BLOCKING_ARITY
+    F = ctx.F
+    b = F.one("ForwardHandler::get_command_arg_len")
+    adt = F.adt("proxy::command::DataCmdType")
+    if b is None or adt is None:
+        ctx.lost("C16.D5", "get_command_arg_len", "arity guard of the blocking commands not found")
+        return
+    ctx.analysed(b)
+    gl = [(bb, t) for bb, t in b.calls() if (callee_of(t) or "").endswith("get_command_len")]
+    if not ctx.floor("C16.D5", "get_command_len in the arity guard", len(gl), 1):
+        return
+    names = {v["name"]: i for i, v in enumerate(adt.variants)}
+    users = [x for x in F.all_bodies(bins=False) if calls_to(x, "get_command_arg_len") and not x.is_mock()]
+    ctx.check(any("handle_blocking_commands" in x.path for x in users), "C16.D5", "guard-used", site(b), ok="handle_blocking_commands consults the guard", bad="handle_blocking_commands does not consult the arity guard")
+    for nm, ar in sorted(BLOCKING_ARITY.items()):
+        if nm not in names:
+            ctx.lost("C16.D5", "arity:%s" % nm, "variant %s not found" % nm)
+            continue
+        for ln in range(0, 8):
+            def call(interp, bbx, term, argvals, ln=ln):
+                for _, g in gl:
+                    if g is term:
+                        return Some(Int(ln))
+                return None
+            try:
+                rv = Interp(F, b, Oracle(args={2: Agg(adt.path, names[nm], ())}, call=call)).run().return_value()
+            except Exception:
+                rv = None
+            want = (ln >= -ar) if ar < 0 else (ln == ar)
+            got = None if not (rv and rv[0] == "agg") else (rv[2] == 0)
+            ctx.check(got == want, "C16.D5", "arity:%s:len=%d" % (nm, ln), site(b), ok="accepted" if want else "refused",
+                      bad="%s with %d array elements is %s (Redis arity %d): %s" % (nm.upper(), ln, "accepted" if got else "refused" if got is not None else "undecided", ar,
+                          "with no key the retry loop of handle_blocking_commands never terminates and the connection is wedged" if got and not want else "a valid command is refused"))
